@@ -24,7 +24,8 @@
    the primitive steps, every torn append) EVERY query is answered as the run map before or after the operation says (P1-P4), for every
    reachable state.  This includes the crash between Open and the first write (F7a, 3aa388e) and EVERY point of the compaction (F7b,
    eb925d1 - C07_crash_close has no exception left).  A status update recorded by a new process AFTER a kill inside a write / update -
-   torn tail or not - is what every query answers afterwards (F7c, 32b069b - C07_update_after_torn).
+   torn tail or not - is what every query answers afterwards (F7c, 32b069b - C07_update_after_torn); the same holds after a kill at any
+   point of Close (C07_update_after_close_crash_general).
    Retention and rename are NOT atomic (one unlink(2) / rename(2) per history file - the intermediate states are visible:
    C07_refuted_retention_atomic, C07_refuted_rename_atomic); what holds, exactly: every crash state of retention answers EVERY query as
    the run map in which SOME of the runs that are up for removal are already removed (C07_crash_removeold); every crash state of rename
@@ -78,6 +79,21 @@ Theorem C07_update_after_torn :
   answers0 loc dirhash D days fs2 (sp_apply (sp_state es) u) \/ answers0 loc dirhash D days fs2 (sp_apply (sp_state (es ++ [EOp o])) u).
 Proof. exact torn_then_update0. Qed.
 Print Assumptions C07_update_after_torn.
+
+(* an update after a kill inside Close, in general: for every reachable state, every crash state of Close (every prefix of its primitive
+   steps, every torn class of the temporary copy), a status update of ANY run recorded afterwards by a new process on the surviving
+   directory is what find, latest and recent answer - as the run map with that update, on top of the run map before or after the
+   close.  (The temporary copy is matched by no pattern; next to its original the compacted copy is the file the reverse-name lookup
+   finds AND the file the listings read: names_okb contains `path of the compacted copy > path of its original`.) *)
+Theorem C07_update_after_close_crash_general :
+  forall loc dirhash D days K, names_okb loc dirhash D days K = true -> closedb D K = true ->
+  forall es now fs' d req tag size now2, premises loc dirhash D days K (es ++ [EOp (OClose now)]) ->
+  In fs' (crash_states loc dirhash (y_h (yrun loc dirhash sys_init es)) (OClose now)) -> In d D ->
+  let u := OUpdate d req tag size now2 in
+  let fs2 := hfs (apply loc dirhash (fresh_state fs') u) in
+  answers0 loc dirhash D days fs2 (sp_apply (sp_state es) u) \/ answers0 loc dirhash D days fs2 (sp_apply (sp_state (es ++ [EOp (OClose now)])) u).
+Proof. exact close_then_update0. Qed.
+Print Assumptions C07_update_after_close_crash_general.
 
 (* retention / deletion, in full: whatever prefix of the unlinks was executed, EVERY query (find, latest, recent; every DAG) answers as
    a run map H' that is the run map before the operation minus some of the runs that are up for removal: nothing is added, every run
@@ -191,7 +207,8 @@ Proof. exact fixed_glued_update. Qed.
 
 (* ... and an update recorded by a new process after a kill at ANY of the nine points of that Close is shown by find, latest and recent
    (the lookup scans the matches in reverse name order: next to its original the compacted copy is found, updated - and read by the
-   listings).  Bounded statement on the model; on the real store the enumeration runs this after-phase at every kill point of Close. *)
+   listings).  An instance of C07_update_after_close_crash_general; on the real store the enumeration runs this after-phase at every
+   kill point of Close. *)
 Example C07_update_after_close_crash :
   forallb (fun fs' => let fs2 := hfs (apply loc dh (fresh_state fs') upd9) in
                       match fpayload (q_find loc dh fs2 a "req-bbbb-2"), snd (q_latest loc dh [] fs2 a None), snd (q_recent loc dh [] fs2 a 2) with
